@@ -364,6 +364,8 @@ func runC05(c *vf.Case) {
 		o, _ := w.NewObj(sim.KConnDialed, false)
 		var tm *sim.Tmr
 		tm, _ = w.NewTimer()
+		rf, _ := w.NewRegFile(make([]byte, 4096))
+		refusedRegs := 0
 		maxQueue := 0
 		c.Bounded("loop-or-posters-stuck", 120*time.Second, func() {
 			expectAtLeast := int64(P * N)
@@ -403,6 +405,13 @@ func runC05(c *vf.Case) {
 				if o != nil && it%7 == 4 {
 					w.Cancel(o)
 				}
+				if rf != nil && it%3 == 1 && rf.Rd == nil {
+					// a registration the kernel refuses (regular file at the dispatch limit): the counter goes up and
+					// is taken back while other goroutines are adding to it
+					w.NextOnDone = nil
+					w.StartStream(rf, 0, false, 8, sim.BNone, nil, true)
+					refusedRegs++
+				}
 			}
 		})
 		// quiescence
@@ -417,6 +426,7 @@ func runC05(c *vf.Case) {
 		}
 		c.Max("max_posted_queue_length", int64(maxQueue))
 		c.Count("posters", P)
+		c.Count("refused_registrations_while_posters_run", refusedRegs)
 		c.Cover("posters_x_loopmode", fmt.Sprintf("P=%d mode=%d", P, loopMode))
 	}
 	if c.Failed() {
@@ -493,7 +503,7 @@ func init() {
 	register(&vf.Check{
 		ID:        "C05",
 		Technique: "race detector (-race build) over a concurrent Post workload + offline checkers over the recorded event log (exactly-once, thread identity, per-poster FIFO linearizability with porcupine) + bounded-progress probes (nested Post, wake-up) + delay injection at poller verifPoints",
-		Rule: "cases = rounds of {1,4,16} poster goroutines x 20-300 (thorough: up to 3000) posts, every 16th handler posting again, while the locked loop goroutine cycles PollOne/RunOneFor and arms/cancels a timer and starts/cancels a socket read (same counters); nested-Post probes (depth 1-3), two thirds of them after a small batch and a burst of 1100-70000 posts queued between two loop iterations; Pending() >= loop-owned operations checked every poll; wake probes (loop blocked in RunOne, Post from another goroutine); RunPending with a loop-owned 5-25 ms timer while 2-6 goroutines post continuously; burst wake probes (1500 rounds of 2-4 simultaneous posts against a loop blocked in RunOne); PRNG-driven yields/spins at the verifPoints post:after-append, poll:after-wait, poll:batch-entry, dispatch:before-lock, dispatch:after-swap in two thirds of the rounds; " +
+		Rule: "cases = rounds of {1,4,16} poster goroutines x 20-300 (thorough: up to 3000) posts, every 16th handler posting again, while the locked loop goroutine cycles PollOne/RunOneFor and arms/cancels a timer, starts/cancels a socket read and starts regular-file reads whose registration epoll refuses (same counters); nested-Post probes (depth 1-3), two thirds of them after a small batch and a burst of 1100-70000 posts queued between two loop iterations; Pending() >= loop-owned operations checked every poll; wake probes (loop blocked in RunOne, Post from another goroutine); RunPending with a loop-owned 5-25 ms timer while 2-6 goroutines post continuously; burst wake probes (1500 rounds of 2-4 simultaneous posts against a loop blocked in RunOne); PRNG-driven yields/spins at the verifPoints post:after-append, poll:after-wait, poll:batch-entry, dispatch:before-lock, dispatch:after-swap in two thirds of the rounds; " +
 			"every round is non-trivial; distinct = (mode, number of posts, delay points hit)",
 		Assumptions: []string{
 			"Posted()/Pending() are compared only at quiescence",
